@@ -84,11 +84,14 @@ def run(tier, seed):
     # fits whose reproducibility is also checked under other string-hash seeds (every family; fresh processes differ in it by default)
     HASH_HISTORIES = [["fit:daily:A", "fit:billing:A", "fit:daily_legacy:A"], ["fit:hourly:A", "fit:hourly_solar:A"], ["fit:caltrack:A"]]
     # developer profiles that select a randomised optimiser: twice in one process, and in fresh processes
-    RAND_HISTORIES = [["fit:daily_crs2:A", "fit:daily_crs2:A", "fit:daily_stogo:A"]] + ([["fit:daily_esch:A", "fit:daily_stogo:A", "fit:daily_esch:A"]] if tier == "thorough" else [])
+    RAND_HISTORIES = [["fit:daily_crs2:A", "fit:daily_crs2:A", "fit:daily_stogo:A"], ["fit:daily_esch:A", "fit:daily_esch:A"]] + ([["fit:daily_esch:A", "fit:daily_stogo:A", "fit:daily_esch:A"]] if tier == "thorough" else [])
+    # a seeded hourly model whose temporal clusters are scored with the (non-default) silhouette metric, after the caller has used numpy's
+    # global generator in different ways
+    RAND_HISTORIES += [["np:rand", "fit:hourly_silhouette:A"], ["np:seed1", "np:rand", "fit:hourly_silhouette:A", "fit:hourly_silhouette:A"]]
     # meters of a fleet that cover the SAME instants (an extract cut on UTC boundaries) in different zones, fitted one after the other
     ZONE_HISTORIES = [["fit:caltrack_pacific:A", "fit:caltrack_eastern:A"]] + ([["fit:caltrack_eastern:A", "fit:caltrack_pacific:A", "fit:caltrack_eastern:A"]] if tier == "thorough" else [])
     ref_ops = sorted(set(("fit:" + a.split(":", 1)[1] if a.startswith(("use:", "refit:")) else a).replace("fit:hourly_late:", "fit:hourly:")
-                         for a in checked) | {op for h in HASH_HISTORIES + RAND_HISTORIES + ZONE_HISTORIES for op in h})
+                         for a in checked) | {op for h in HASH_HISTORIES + RAND_HISTORIES + ZONE_HISTORIES for op in h if op.startswith(CHECKED_PREFIX)})
     stats = {"processes": 0, "fits_compared": 0}
 
     def ref_of(op):
